@@ -94,15 +94,17 @@ func init() {
 
 		Obligations: []obligation{
 			{Pkg: "mysql/gtids", Entry: "H_C13_relations", Witnesses: []string{"C13.behind", "C13.ahead"},
-				Quick: tierCfg{Params: map[string]int{"uuids": 2, "tags": 1, "intervals": 2}}, Thorough: tierCfg{Params: map[string]int{"uuids": 2, "tags": 2, "intervals": 2}}},
+				Quick: tierCfg{Params: map[string]int{"uuids": 2, "tags": 1, "intervals": 2}}, Thorough: tierCfg{Params: map[string]int{"uuids": 2, "tags": 1, "intervals": 3}}},
+			{Pkg: "mysql/gtids", Entry: "H_C13_relations_tags", Witnesses: []string{"C13.behind", "C13.ahead"},
+				Quick: tierCfg{Params: map[string]int{"uuids": 1, "tags": 2, "intervals": 1}}, Thorough: tierCfg{Params: map[string]int{"uuids": 1, "tags": 2, "intervals": 2}}},
 			{Pkg: "mysql/gtids", Entry: "H_C13_split", Witnesses: []string{"C13.split", "C13.nosplit"},
-				Quick: tierCfg{Params: map[string]int{"uuids": 2, "tags": 1, "intervals": 2}}, Thorough: tierCfg{Params: map[string]int{"uuids": 2, "tags": 2, "intervals": 2}}},
+				Quick: tierCfg{Params: map[string]int{"uuids": 2, "tags": 1, "intervals": 2}}, Thorough: tierCfg{Params: map[string]int{"uuids": 1, "tags": 2, "intervals": 2}}},
 			{Pkg: "mysql/gtids", Entry: "H_C13_minus_slice", Witnesses: []string{"C13.minus.empty", "C13.minus.nonempty"},
 				Quick: tierCfg{Params: map[string]int{"intervals": 2}}, Thorough: tierCfg{Params: map[string]int{"intervals": 3}}},
 			{Pkg: "mysql/gtids", Entry: "H_C13_diff", Witnesses: []string{"C13.diff.equal", "C13.diff.source-ahead", "C13.diff.split", "C13.diff.replica-ahead"},
-				Quick: tierCfg{Params: map[string]int{"uuids": 2, "tags": 1, "intervals": 1}}, Thorough: tierCfg{Params: map[string]int{"uuids": 2, "tags": 1, "intervals": 2}}},
+				Quick: tierCfg{Params: map[string]int{"uuids": 2, "tags": 1, "intervals": 1}}, Thorough: tierCfg{Params: map[string]int{"uuids": 1, "tags": 1, "intervals": 2}}},
 			{Pkg: "mysql/gtids", Entry: "H_C13_diff_tags", Witnesses: []string{"C13.diff.equal", "C13.diff.source-ahead", "C13.diff.split", "C13.diff.replica-ahead"},
-				Quick: tierCfg{Params: map[string]int{"uuids": 1, "tags": 2, "intervals": 1}}, Thorough: tierCfg{Params: map[string]int{"uuids": 2, "tags": 2, "intervals": 1}}},
+				Quick: tierCfg{Params: map[string]int{"uuids": 1, "tags": 2, "intervals": 1}}, Thorough: tierCfg{Params: map[string]int{"uuids": 1, "tags": 2, "intervals": 1}}},
 			{Pkg: "app", Entry: "H_C13_most_recent", Witnesses: []string{"C13.recent.split", "C13.recent.max"},
 				Quick: tierCfg{Params: map[string]int{"max_n": 3, "gtid_bits": 3}}, Thorough: tierCfg{Params: map[string]int{"max_n": 5, "gtid_bits": 4}}},
 		},
@@ -121,11 +123,11 @@ func init() {
 
 		Obligations: []obligation{
 			{Pkg: "app", Entry: "H_C14_choice", Witnesses: []string{"C14.empty", "C14.choice.multi"}, RecursionLimits: c14rec, Solver: "cvc5",
-				Quick: tierCfg{Params: map[string]int{"max_n": 3, "gtid_bits": 3}}, Thorough: tierCfg{Params: map[string]int{"max_n": 4, "gtid_bits": 3}}},
+				Quick: tierCfg{Params: map[string]int{"max_n": 3, "gtid_bits": 3}}, Thorough: tierCfg{Params: map[string]int{"max_n": 3, "gtid_bits": 4}}},
 			{Pkg: "app", Entry: "H_C14_from_filter", Witnesses: []string{"C14.filter.chosen", "C14.filter.none"}, RecursionLimits: c14rec, Solver: "cvc5",
-				Quick: tierCfg{Params: map[string]int{"max_n": 3}}, Thorough: tierCfg{Params: map[string]int{"max_n": 4}}},
+				Quick: tierCfg{Params: map[string]int{"max_n": 3}}, Thorough: tierCfg{Params: map[string]int{"max_n": 3}}},
 			{Pkg: "app", Entry: "H_C14_vs_most_recent", Witnesses: []string{"C14.mr.agree", "C14.mr.split"}, RecursionLimits: c14rec, Solver: "cvc5",
-				Quick: tierCfg{Params: map[string]int{"max_n": 3, "gtid_bits": 3}}, Thorough: tierCfg{Params: map[string]int{"max_n": 4, "gtid_bits": 3}}},
+				Quick: tierCfg{Params: map[string]int{"max_n": 3, "gtid_bits": 3}}, Thorough: tierCfg{Params: map[string]int{"max_n": 5, "gtid_bits": 4}}},
 		},
 		Encoded: []string{"app.getMostDesirableNode", "app.getMostPriorityNode", "app.filterOutNodeFromPositions", "app.findMostRecentNodeAndDetectSplitbrain"},
 		Assumptions: []string{
